@@ -36,7 +36,7 @@ TIME_CAP = {'quick': 900, 'thorough': 5400}
 REQUIRED_CLASSES = (['be:' + b for b in BACKENDS] + ['dtype:' + d for d in DTYPES] +
                     ['rank:1', 'rank:2', 'rank:3', 'select:query', 'select:tags', 'rename:on', 'rename:off',
                      'units:on', 'units:off', 'opt:define', 'opt:const', 'value:none', 'str:blank', 'str:dquote',
-                     'str:squote', 'str:punctuation', 'int:boundary', 'float:17digits', 'path:dotted', 'has:unit'])
+                     'str:squote', 'str:punctuation', 'str-array-element-with-array-notation-characters', 'int:boundary', 'float:17digits', 'path:dotted', 'has:unit'])
 REQUIRED_MONITORS = (['compiles:' + b for b in BACKENDS] + ['symbols_compared:' + b for b in BACKENDS] +
                      ['exports', 'export_history_twins', 'selection_sets_compared'])
 ASSUMPTIONS = [
@@ -66,7 +66,7 @@ TAGS = ['sel', 'aux', 'io']
 WORDS = ['Conf', 'run7', 'zeta', 'Xi', 'mu0', 'alpha', 'Beta', 'grid-2', 'v1.5', 'a', 'bb', 'ccc', 'node_7', 'Q', 'x:y', 'up/down']
 LOOKALIKE = ['true', '12', '1.5e3', 'None', '-7', '0']
 # characters with a special meaning for a shell, a C-like compiler or a format string
-SPECIALS = list('!&;*~|%?<>=$`\\(){}^@+,') + [' ! ', ' & ', '; ', '$(', '${', '\\n', '%s', '!!']
+SPECIALS = list('!&;*~|%?<>=$`\\(){}^@+,[]:/') + [' ! ', ' & ', '; ', '$(', '${', '\\n', '%s', '!!', '[1:3]', ' [cm]', '{0}', '[[', ']]']
 PUNCT = ['Done!', 'go! now', 'a&b', 'x;y', 'p*q', '~home', 'a|b', '100%', 'why?', '<tag>', 'k=v', '$HOME', 'cost $5', '`cmd`', 'back\\slash',
          'tab(1)', 'semi; colon', 'hash#tag', '!bang', 'a && b', 'x > y', '%d items', '{curly}', 'c:\\dir']
 NAMEPOOL = ['alpha', 'beta', 'gamma_ray', 'num_cells', 'boxSize', 'width', 'height', 'depth', 'rho', 'temp0', 'v1', 'Kappa',
@@ -280,7 +280,7 @@ def gen_value(rng, dt, shape, classes, strkind=None):
         flat = [gen_float(rng, bits, classes) for _ in range(n)]
     else:
         if shape:
-            mode = rng.choice(['plain-equal', 'plain', 'blank', 'dquote', 'squote']) if strkind is None else strkind
+            mode = rng.choice(['plain-equal', 'plain', 'blank', 'dquote', 'squote', 'punct', 'punct']) if strkind is None else strkind
             if mode == 'plain-equal':
                 L = rng.randint(1, 4)
                 flat = [''.join(rng.choice('abcdxyz019') for _ in range(L)) for _ in range(n)]
@@ -289,6 +289,11 @@ def gen_value(rng, dt, shape, classes, strkind=None):
             elif mode == 'blank':
                 flat = [gen_string(rng, 'blank') if rng.random() < 0.6 else rng.choice(WORDS) for _ in range(n)]
                 flat[0] = gen_string(rng, 'blank')
+            elif mode == 'punct':
+                # array ELEMENTS with characters that mean something to a shell, a compiler or an array notation ([ ] { } , ;)
+                flat = [rng.choice(WORDS) for _ in range(n)]
+                for _ in range(rng.randint(1, n)):
+                    flat[rng.randrange(n)] = gen_string(rng, 'punct')
             elif mode == 'dquote':
                 flat = [rng.choice(WORDS) for _ in range(n)]
                 flat[rng.randrange(n)] = gen_string(rng, 'dquote')
@@ -323,7 +328,7 @@ def gen_env(rng, nnodes, cover=False):
                 plan.append((dt, None))
             plan += [('str', None)] * 6 + [('str', 1)]
             plan += [('bool', 1), ('int', 2), ('float', 3), ('str', 1), ('str', 2), ('int64', 1), ('uint16', 2), ('float32', 1),
-                     ('float128', 2), ('float', 2), ('str', 1), ('uint64', 1), ('int16', 3), ('bool', 2)]
+                     ('float128', 2), ('float', 2), ('str', 1), ('uint64', 1), ('int16', 3), ('bool', 2), ('str', 1)]
         while len(plan) < nnodes:
             dt = rng.choice(DTYPES)
             rank = rng.choice([None, None, None, 1, 1, 2, 2, 3])
@@ -331,7 +336,7 @@ def gen_env(rng, nnodes, cover=False):
         rng.shuffle(plan)
         nodes, classes = [], set()
         strk = ['blank', 'dquote', 'squote', 'look', 'punct', 'plain'] if cover else []
-        astr = ['plain-equal', 'blank', 'dquote', 'plain'] if cover else []
+        astr = ['plain-equal', 'blank', 'dquote', 'plain', 'punct'] if cover else []
         none_left = 3 if cover else (1 if rng.random() < 0.5 else 0)
         for i, (dt, rank) in enumerate(plan):
             kind = dt_info(dt)[0]
@@ -1303,6 +1308,8 @@ def case_classes(be, opt, sel):
                 cl.add('str:lookalike')
             if any(s in PUNCT or any(c in s for c in '!&;*~|%?<>=$`\\(){}^@') for s in flat):
                 cl.add('str:punctuation'); nontrivial = True
+            if rank and any(any(c in s for c in '[]{},;') for s in flat):
+                cl.add('str-array-element-with-array-notation-characters'); nontrivial = True
         if k == 'int':
             lo, hi = INT_RANGE[(bits, uns)]
             if any(v in (lo, hi, lo + 1, hi - 1) or abs(v) >= 2 ** 31 - 1 for v in flat):
